@@ -1085,6 +1085,12 @@ impl ReCompiler {
                 return false;
             }
         }
+        if op1.get_minimum_match_length() == 0 {
+            // the following term may match nothing at all (an optional group,
+            // an alternative of optional terms, a back-reference), in which
+            // case what comes after it decides, and that is not looked at here
+            return false;
+        }
         let c0 = op0.get_initial_character_class(case_blind);
         let c1 = op1.get_initial_character_class(case_blind);
         c0.is_disjoint(&c1)
